@@ -68,12 +68,15 @@ fn graph_req<K: Kmer + Send + Sync>(a: &[&str]) -> String {
         }));
         r.unwrap_or(("panic".into(), "panic".into()))
     }).collect();
-    format!("edges={}|links={}|valid={}|maxpath={}|mpseq={}|wseq={}|beam={}|bseq={}",
+    // `iter_nodes()`: every node once, in id order, with its sequence, extensions and payload
+    let it: Vec<String> = g.iter_nodes().map(|n| format!("{}:{}:{:02x}:{}", n.node_id, seq_digits(&n.sequence()), n.exts().val, n.data())).collect();
+    format!("edges={}|links={}|valid={}|maxpath={}|mpseq={}|wseq={}|beam={}|bseq={}|iter={}",
         all_edges(&g),
         if links.is_empty() { "-".to_string() } else { links.join(",") },
         if vex.is_empty() { "-".to_string() } else { vex.join(",") },
         show_path(&mp), seq_digits(&g.sequence_of_path(mp.iter())), seq_digits(&g.sequence_of_path(walk.iter())),
-        beams.iter().map(|x| x.0.clone()).collect::<Vec<_>>().join(";"), beams.iter().map(|x| x.1.clone()).collect::<Vec<_>>().join(";"))
+        beams.iter().map(|x| x.0.clone()).collect::<Vec<_>>().join(";"), beams.iter().map(|x| x.1.clone()).collect::<Vec<_>>().join(";"),
+        if it.is_empty() { "-".to_string() } else { it.join(",") })
 }
 
 fn prune_req<K: Kmer>(a: &[&str]) -> String {
